@@ -2250,7 +2250,8 @@ def check_property(pid, tier, seed, do_lean=True, write_evidence=True):
             views_proved_equal_to_the_model=sorted(tie.get("proved", [])), broken=tie.get("broken", {}), untranslatable=tie.get("untranslatable", {}),
             end_to_end_theorems_for_this_property=dict(
                 theorems=["SF.GenEq." + n for n in (tie.get("transfer") or {}).get(pid, [])],
-                meaning="Realises (the view generated from the Rust text, over Echo) (the batch definition the property names): fed any history, "
+                meaning="(C14: the generated last() of a combinator = the operation applied to its children's current outputs, at any scalar type, hence bit-exactly at Float.  Otherwise:) "
+                        "Realises (the view generated from the Rust text, over Echo) (the batch definition the property names): fed any history, "
                         "the translated Rust text does not panic and reports the definition's value -- the model's characterisation theorem "
                         "carried over along SF.GenEq.<View>.sim (real arithmetic); axioms audited",
                 skipped=tie.get("transfer_skipped") or tie.get("transfer_error")),
